@@ -136,6 +136,8 @@ impl Curve {
     pub fn extrapolate(&mut self, horizon: Duration) {
         if self.can_extrapolate() {
             while self.largest_known_distance() < horizon {
+                #[cfg(feature = "verif")]
+                crate::verif_hooks::tick("arrival::Curve::extrapolate");
                 self.min_distance.push(self.extrapolate_next())
             }
         }
@@ -147,6 +149,8 @@ impl Curve {
     pub fn extrapolate_steps(&mut self, n: usize) {
         if self.can_extrapolate() {
             while self.jobs_in_largest_known_distance() < n {
+                #[cfg(feature = "verif")]
+                crate::verif_hooks::tick("arrival::Curve::extrapolate_steps");
                 self.min_distance.push(self.extrapolate_next())
             }
         }
@@ -348,6 +352,8 @@ impl ArrivalBound for ExtrapolatingCurve {
             fn advance(&mut self) {
                 let mut prefix = self.curve.prefix.borrow_mut();
                 while prefix.min_distance(self.njobs) <= self.dist {
+                    #[cfg(feature = "verif")]
+                    crate::verif_hooks::tick("arrival::ExtrapolatingCurve::steps_iter");
                     prefix.extrapolate_steps(self.njobs + 1);
                     self.njobs += 1
                 }
